@@ -360,3 +360,126 @@ where
     }
 }
 
+
+fn ldb<M: Machine, V: StoreBytes>(m: M, be: bool, b: &[u8]) -> V {
+    if be {
+        m.read_be(b)
+    } else {
+        m.read_le(b)
+    }
+}
+fn stb<V: StoreBytes>(v: V, be: bool, out: &mut [u8]) {
+    if be {
+        v.write_be(out)
+    } else {
+        v.write_le(out)
+    }
+}
+
+/// The byte-I/O interpreter: operands come from memory bytes through `read_le` / `read_be` and the result goes back through
+/// `write_le` / `write_be` - the way a portable algorithm uses the vector types - so the register files must agree
+/// between hosts of either byte order (the storage-conversion loads of `exec` are a native-memory pun, which is only
+/// comparable between hosts of the same byte order). Only the five types whose trait bounds include `StoreBytes`.
+pub fn exec_bytes<M: Machine>(m: M, ty: usize, group: usize, k: u32, imm: u32, regs: &mut Regs, dst: usize, ia: usize, ib: usize) {
+    let ra = regs[ia];
+    let rb = regs[ib];
+    let out = &mut regs[dst];
+    let (rd_be, wr_be) = (imm & 0x20 != 0, imm & 0x40 != 0);
+    match ty % 5 {
+        0 => {
+            let a: M::u32x4 = ldb(m, rd_be, &ra[..16]);
+            let b: M::u32x4 = ldb(m, rd_be, &rb[..16]);
+            let r: M::u32x4 = match group {
+                1 => rot32(k, a),
+                3 => arith(k, a, b),
+                5 => words4(k, a),
+                6 => lanewords4(k, a),
+                7 => a.insert(b.extract(idx(imm & 0x1f, 0, 4)), idx(imm & 0x1f, 3, 4)),
+                8 => {
+                    let l: [u32; 4] = a.to_lanes();
+                    let p = (imm % 4) as usize;
+                    m.vec([l[p], l[(p + 1) % 4].wrapping_add(l[p]), l[(p + 3) % 4], l[(p + 2) % 4]])
+                }
+                _ => bit0(k, a, b),
+            };
+            stb(r, wr_be, &mut out[..16])
+        }
+        1 => {
+            let a: M::u32x4x2 = ldb(m, rd_be, &ra[..32]);
+            let b: M::u32x4x2 = ldb(m, rd_be, &rb[..32]);
+            let r: M::u32x4x2 = match group {
+                1 => rot32(k, a),
+                3 => arith(k, a, b),
+                7 => a.insert(b.extract(idx(imm & 0x1f, 0, 2)), idx(imm & 0x1f, 3, 2)),
+                8 => {
+                    let l: [M::u32x4; 2] = a.to_lanes();
+                    M::u32x4x2::from_lanes([l[1], l[0] + l[1]])
+                }
+                _ => bit0(k, a, b),
+            };
+            stb(r, wr_be, &mut out[..32])
+        }
+        2 => {
+            let a: M::u64x2x2 = ldb(m, rd_be, &ra[..32]);
+            let b: M::u64x2x2 = ldb(m, rd_be, &rb[..32]);
+            let r: M::u64x2x2 = match group {
+                1 => rot32(k, a),
+                2 => a.rotate_each_word_right32(),
+                3 => arith(k, a, b),
+                7 => a.insert(b.extract(idx(imm & 0x1f, 0, 2)), idx(imm & 0x1f, 3, 2)),
+                8 => {
+                    let l: [M::u64x2; 2] = a.to_lanes();
+                    let x: [u64; 2] = l[0].to_lanes();
+                    M::u64x2x2::from_lanes([l[1] + l[0], m.vec([x[1].rotate_left(imm % 64), x[0]])])
+                }
+                _ => bit0(k, a, b),
+            };
+            stb(r, wr_be, &mut out[..32])
+        }
+        3 => {
+            let a: M::u64x4 = ldb(m, rd_be, &ra[..32]);
+            let b: M::u64x4 = ldb(m, rd_be, &rb[..32]);
+            let r: M::u64x4 = match group {
+                1 => rot32(k, a),
+                2 => a.rotate_each_word_right32(),
+                3 => arith(k, a, b),
+                5 => words4(k, a),
+                7 => a.insert(b.extract(idx(imm & 0x1f, 0, 4)), idx(imm & 0x1f, 3, 4)),
+                8 => {
+                    let l: [u64; 4] = a.to_lanes();
+                    let p = (imm % 4) as usize;
+                    M::u64x4::from_lanes([l[p].rotate_left(imm % 64), l[(p + 2) % 4], l[(p + 1) % 4].wrapping_add(l[p]), l[(p + 3) % 4]])
+                }
+                _ => bit0(k, a, b),
+            };
+            stb(r, wr_be, &mut out[..32])
+        }
+        _ => {
+            let a: M::u32x4x4 = ldb(m, rd_be, &ra[..64]);
+            let b: M::u32x4x4 = ldb(m, rd_be, &rb[..64]);
+            let r: M::u32x4x4 = match group {
+                1 => rot32(k, a),
+                3 => arith(k, a, b),
+                6 => lanewords4(k, a),
+                7 => a.insert(b.extract(idx(imm & 0x1f, 0, 4)), idx(imm & 0x1f, 3, 4)),
+                8 => {
+                    let l: [M::u32x4; 4] = a.to_lanes();
+                    let p = (imm % 4) as usize;
+                    M::u32x4x4::from_lanes([l[p], l[(p + 1) % 4] + l[p], l[(p + 3) % 4], l[(p + 2) % 4]])
+                }
+                11 => {
+                    let (t0, t1, t2, t3) = M::u32x4x4::transpose4(a, b, a ^ b, a + b);
+                    match imm % 4 {
+                        0 => t0,
+                        1 => t1,
+                        2 => t2,
+                        _ => t3,
+                    }
+                }
+                _ => bit0(k, a, b),
+            };
+            stb(r, wr_be, &mut out[..64])
+        }
+    }
+}
+pub const BYTE_TYPES: [&str; 5] = ["u32x4", "u32x4x2", "u64x2x2", "u64x4", "u32x4x4"];
